@@ -75,6 +75,13 @@ class World:
         return const(2 if self.bounded else 1)
 
 
+def abs_of(v, expr):
+    """|v| as a symbol: named after the value when it is a plain symbol (so that renamed copies agree), else after the text"""
+    if isinstance(v, Alg) and v.is_rat() and len(v.rat().symbols()) == 1 and v.eq(sym(list(v.rat().symbols())[0])):
+        return Alg(Rat.sym('abs(%s)' % list(v.rat().symbols())[0]))
+    return Alg(Rat.sym('abs(%s)' % U(expr)))
+
+
 class CostExec(SymExec):
     def __init__(self, world, fi, flags=None, env=None, stack=(), loops=(), self_env=None, cls=None):
         from ..normalise import normalised
@@ -89,6 +96,7 @@ class CostExec(SymExec):
         self.cls = cls
         self.mod = fi.module
         self.sel_done = set()
+        self.keyvars = {}        # loop variable -> the mapping whose keys it ranges over
         for k, v in self.self_env.items():
             self.env.setdefault('self.' + k, v)
 
@@ -130,6 +138,9 @@ class CostExec(SymExec):
         if isinstance(e, ast.Subscript):
             base = self.value(e.value)
             t = tag_of(base)
+            if isinstance(e.value, ast.Name) and isinstance(e.slice, ast.Name) and self.keyvars.get(e.slice.id) == e.value.id \
+                    and (t is None or t.kind == 'public'):
+                return Alg(Rat.sym('elemof:' + e.value.id))
             if t is not None and t.kind == 'dictof':
                 return Opaque(e, t.elem) if t.elem is not None else Opaque(e, Tag('public'))
             if t is not None and t.kind == 'unit':
@@ -159,12 +170,32 @@ class CostExec(SymExec):
             return tagged('tuple', e, elems=vals)
         return super().value(e)
 
+    def bind_elements(self, target, it):
+        """loop / comprehension variables: keys are public; the value element of a public mapping X is the symbol elemof:X
+        (whatever the variable is called, and whether it is reached as X[k], via .items() or via .values())"""
+        for n in target_names(target):
+            self.env[n] = Opaque(it, Tag('public'))
+        if isinstance(it, ast.Call) and isinstance(it.func, ast.Attribute) and not it.args and isinstance(it.func.value, ast.Name):
+            X = it.func.value.id
+            xv = self.env.get(X)
+            if tag_of(xv) is not None and tag_of(xv).kind not in ('public',):
+                return
+            if it.func.attr == 'items' and isinstance(target, ast.Tuple) and len(target.elts) == 2 and \
+                    all(isinstance(t, ast.Name) for t in target.elts):
+                self.env[target.elts[1].id] = Alg(Rat.sym('elemof:' + X))
+                self.keyvars[target.elts[0].id] = X
+            elif it.func.attr == 'values' and isinstance(target, ast.Name):
+                self.env[target.id] = Alg(Rat.sym('elemof:' + X))
+            elif it.func.attr == 'keys' and isinstance(target, ast.Name):
+                self.keyvars[target.id] = X
+        elif isinstance(it, ast.Name) and isinstance(target, ast.Name):
+            self.keyvars[target.id] = it.id
+
     def comprehension(self, e):
         g = e.generators[0]
         saved = dict(self.env)
         it = self.value(g.iter)
-        for n in target_names(g.target):
-            self.env[n] = Opaque(g.iter, Tag('public'))
+        self.bind_elements(g.target, g.iter)
         v = self.value(e.elt)
         self.env = saved
         t = tag_of(v)
@@ -224,7 +255,7 @@ class CostExec(SymExec):
             for a, av, bv, bexpr in ((tl, l, r, e.right), (tr, r, l, e.left)):
                 if a is not None and a.kind == 'sens' and isinstance(bv, Alg):
                     # |public| * Delta
-                    return tagged('sens', e, D=Alg(Rat.sym('abs(%s)' % U(bexpr))) * a.D)
+                    return tagged('sens', e, D=abs_of(bv, bexpr) * a.D)
         if isinstance(e.op, ast.MatMult):
             if tr is not None and tr.kind == 'vec':
                 note = 'A-Q: query matrices applied to private marginals have unit L2 column norm (asserted by a source comment, ' \
@@ -316,10 +347,10 @@ class CostExec(SymExec):
         if name == 'abs' and len(call.args) == 1:
             v = self.value(call.args[0])
             if isinstance(v, Alg):
-                return Alg(Rat.sym('abs(%s)' % U(call.args[0])))
+                return abs_of(v, call.args[0])
         if name == 'max' and len(call.args) == 1:
             v = self.value(call.args[0])
-            t = tag_of(v, 'valuesof')
+            t = tag_of(v, 'valuesof') or tag_of(v, 'dictof')
             if t is not None and getattr(t, 'elem_alg', None) is not None:
                 return tagged('maxof', call, D=t.elem_alg)
         if name == 'Dataset' and call.args:
@@ -619,8 +650,10 @@ class CostExec(SymExec):
                     part = U(g.iter)
         self.havoc(names, 'L%d' % s.lineno)
         if isinstance(s, ast.For):
+            self.bind_elements(s.target, s.iter)
             for n in target_names(s.target):
-                self.env[n] = Alg(Rat.sym('elem:%s' % n)) if n == unit else Opaque(s.iter, Tag('public'))
+                if n == unit:
+                    self.env[n] = Alg(Rat.sym('elem:%s' % n))
         self.loops.append(s)
         self.loop_info.append((s, trip, unit, part))
         self.world.events.append(('loop-enter', s, self.fi.qualname))
